@@ -115,6 +115,8 @@ func (unprintablePanic) String() string { panic("inner-boom") }
 // universe returns fresh fmt-compatible operands (some hold pointers, so build per call).
 type namedF32 float32
 
+type ifaceHolder struct{ V interface{} }
+
 func universe(r *rand.Rand) []interface{} {
 	strs := []string{"", "a", "hello world", "é世😀", "with ‹marker› inside", "›‹", "line1\nline2", "\n", "tab\tq\"uote", "×", "a ‹×› b"}
 	s := strs[r.Intn(len(strs))]
@@ -167,6 +169,13 @@ func universeOf(s string, n int, ps string, pn int) []interface{} {
 			U uint16
 		}{0.1, complex(float32(0.1), 0.7), int8(-n), uint16(n)}, []complex64{complex(0.1, 0.2)}, []int8{-3, int8(n)}, []uint16{9, uint16(n)},
 		[]interface{}{float32(0.1), complex64(complex(0.3, 0.1))},
+		// reflect.Values of Kind Interface (obtained by Elem / Index / Field, never by ValueOf) holding pointers, containers, nil
+		reflect.ValueOf(&ifaceHolder{&in}).Elem().Field(0), reflect.ValueOf([]interface{}{&in, []int{n}, nil}).Index(0),
+		reflect.ValueOf([]interface{}{&in, []int{n}, nil}).Index(1), reflect.ValueOf([]interface{}{&in, []int{n}, nil}).Index(2),
+		reflect.ValueOf(map[string]interface{}{"k": &x}).MapIndex(reflect.ValueOf("k")),
+		// maps whose interface-typed keys include nil (the key order compares a zero reflect.Value)
+		map[interface{}]int{nil: 1, "a": 2, 3: n}, map[error]int{nil: 0, nilErr: 2}, map[fmt.Stringer]string{nil: s, strStringer("k"): "v"},
+		map[[2]interface{}]int{{nil, 1}: 1, {"a", nil}: 2, {nil, nil}: n},
 		// integers beyond 32 bits (whose low bits look like a rune), extreme map keys (key order by comparison, not subtraction)
 		int64(1)<<32 | 'A', uint64(7)<<40 | 0x2318, int64(math.MinInt64), uint64(math.MaxUint64), int64(0x10FFFF + 1), int64(0xD800),
 		map[int64]string{math.MinInt64: "lo", 1: "one", math.MaxInt64: "hi", -3: s}, map[int]bool{-5: true, 7: false, math.MinInt64: true},
